@@ -28,7 +28,11 @@ import (
 // specs
 
 type TSSSpec struct {
-	Name  string `json:"name"` // "@self" = a TSS client registered under the chain's own name
+	// "@self" = a TSS client stored under the chain's OWN name.  Since /repo a9e74e1 the CreateClient proposal refuses
+	// such a client; it can only come from an imported genesis (NewWorld stores it the way InitGenesis does).  Only
+	// hand-written corpus histories use it (it is the only way to reach the branches of RecvPacket for packets that
+	// are not addressed to this chain); the generator does not.
+	Name  string `json:"name"`
 	Acct  int    `json:"acct"`
 	Upper bool   `json:"upper,omitempty"`
 }
@@ -143,9 +147,6 @@ func genSpec(r *hlib.Rand, id int, nsteps int) Spec {
 	if r.Bool() {
 		sp.TSS = append(sp.TSS, TSSSpec{Name: "tss-two", Acct: r.Intn(nAccts), Upper: r.Chance(1, 8)})
 	}
-	if r.Chance(1, 4) {
-		sp.TSS = append(sp.TSS, TSSSpec{Name: "@self", Acct: r.Intn(nAccts)})
-	}
 	chainB := xibctesting.GetChainID(1)
 	universe := []string{chainB, "ghost-net"}
 	tssAcct := map[string]int{}
@@ -255,9 +256,6 @@ func genSpec(r *hlib.Rand, id int, nsteps int) Spec {
 			sp.Steps = append(sp.Steps, st)
 		default:
 			st := Step{Chain: pickChain()}
-			if _, hasSelf := tssAcct["@self"]; hasSelf && r.Chance(1, 6) {
-				st.Chain = "@self" // packets that are not for this chain (relay / unknown-destination branches)
-			}
 			switch {
 			case k < 50:
 				st.K = "update"
@@ -377,8 +375,8 @@ func (w *World) syncClientOfB() {
 	w.coord.CommitBlock(w.B)
 	w.coord.CommitBlock(w.B)
 	hdr, err := w.A.ConstructUpdateTMClientHeader(w.B, w.B.ChainID)
-	must(err)
-	must(w.A.App.XIBCKeeper.ClientKeeper.UpdateClient(w.A.GetContext(), w.B.ChainID, hdr))
+	mustCall("TestChain.ConstructUpdateTMClientHeader(counterparty)", err)
+	mustCall("ClientKeeper.UpdateClient(set-up sync of the counterparty's client)", w.A.App.XIBCKeeper.ClientKeeper.UpdateClient(w.A.GetContext(), w.B.ChainID, hdr))
 }
 
 func decodeAck(bz []byte) *AckObs {
@@ -475,7 +473,7 @@ func (w *World) runStep(st Step, canon map[string]string, bech map[string]bool) 
 			seq := B.App.XIBCKeeper.PacketKeeper.GetNextSequenceSend(B.GetContext(), B.ChainID, A.ChainID)
 			td, cd := w.payload(st.Payload)
 			p := packettypes.NewPacket(B.ChainID, A.ChainID, seq, "sender", td, cd, "", st.FeeOpt)
-			must(B.App.XIBCKeeper.PacketKeeper.SendPacket(B.GetContext(), p))
+			mustCall("counterparty PacketKeeper.SendPacket(packet to be received)", B.App.XIBCKeeper.PacketKeeper.SendPacket(B.GetContext(), p))
 			w.syncClientOfB()
 			proof, ph := B.QueryProof(host.PacketCommitmentKey(B.ChainID, A.ChainID, seq))
 			if st.Flavor == "bad" {
